@@ -1,5 +1,5 @@
 import RnaVerif.Model.Clash
-import RnaVerif.Lemmas.Pairs
+import RnaVerif.Lemmas.PairUtil
 import Mathlib.Data.Rat.Floor
 import Mathlib.Tactic.Ring
 import Mathlib.Tactic.Linarith
